@@ -370,8 +370,13 @@ pub fn observe(m: &mut Mdl, c: &Call, r: &mut Rules, w: usize) {
             AP::Ack { kind: AckKind::Pubrel, pid, .. } => {
                 note(Note::Rel { id: *pid });
             }
-            AP::Disconnect { .. } => {
+            AP::Disconnect { props, .. } => {
                 m.st = St::Disc;
+                // a Session Expiry Interval in DISCONNECT replaces the one in force (3.14.2.2.2)
+                if let Some(v) = props.as_ref().and_then(|p| prop_u32(p, 0x11)) {
+                    m.persistent = v != 0;
+                    r.label("session.expiry-in-disconnect");
+                }
             }
             _ => {}
         }
@@ -1018,6 +1023,12 @@ fn on_recv(m: &mut Mdl, pre: &Mdl, ap: &AP, frame: &[u8], c: &Call, r: &mut Rule
             if delivered {
                 m.close_pending = true;
                 m.peer_disc = true;
+                if let AP::Disconnect { props: Some(p), .. } = ap {
+                    if let Some(v) = prop_u32(p, 0x11) {
+                        m.persistent = v != 0;
+                        r.label("session.expiry-in-disconnect");
+                    }
+                }
             }
         }
         _ => {}
